@@ -238,16 +238,24 @@ class FakeLagrangian:
 
     def best_h(self, lambda_vec):
         want = STATE["script"][self.t % len(STATE["script"])]
-        idx = min(want, len(self.hs))  # an already stored index, or the next new one
+        idx = (len(self.hs) - 1 - want) if (len(self.hs) > want and self.t % 2) else min(want, len(self.hs))  # a stored index (old or recent) or a new one
         if idx == len(self.hs):
-            self.hs.at[idx] = (lambda X, i=idx: np.full(len(X), float(i % 2)))
-            self.predictors.at[idx] = f"pred{idx}"
-            self.gammas[idx] = pd.Series([0.01 * ((idx + j) % 3 - 1) for j in range(len(self.constraints.index))], index=self.constraints.index)
-            self.lambdas[idx] = lambda_vec.copy()
+            self._new_predictor(lambda_vec)
         STATE["log"].append(("best_h", self.t, idx))
         return self.hs[idx], idx
 
+    def _new_predictor(self, lambda_vec):
+        idx = len(self.hs)
+        self.hs.at[idx] = (lambda X, i=idx: np.full(len(X), float(i % 2)))
+        self.predictors.at[idx] = f"pred{idx}"
+        self.gammas[idx] = pd.Series([0.01 * ((idx + j) % 3 - 1) for j in range(len(self.constraints.index))], index=self.constraints.index)
+        self.lambdas[idx] = lambda_vec.copy()
+        return idx
+
     def eval_gap(self, Q, lambda_hat, nu):
+        # like the real eval_gap (which calls best_h), the gap evaluation may discover a predictor that the iterate has not picked yet
+        if STATE["script"][(self.t + 3) % len(STATE["script"])] == 1:
+            self._new_predictor(lambda_hat)
         g = real(f"gEG{self.t}", 0)
         STATE["log"].append(("eval_gap", self.t, Q.copy(), g))
         self.t += 1
